@@ -37,7 +37,8 @@ type instSpec struct {
 	MaintToken  string    `json:"maintenance_token"`
 	TablesToken string    `json:"tables_token"`
 	TLS         *tlsFlags `json:"tls,omitempty"`
-	LeaderRepl  string    `json:"-"` // follower only: host:port of the leader's replication API
+	ReplTLS     *tlsFlags `json:"replication_tls,omitempty"` // leader only: TLS options of the replication endpoint
+	LeaderRepl  string    `json:"-"`                         // follower only: host:port of the leader's replication API
 }
 
 type instance struct {
@@ -173,8 +174,19 @@ func (s instSpec) build(dir, node string, ports []int) (args []string, api, repl
 		"--tables.token=" + s.TablesToken,
 	}
 	if s.Kind == "leader" {
-		args = append(args, "--replication.address=http://"+hp(4))
 		repl = hp(4)
+		if t := s.ReplTLS; t != nil {
+			args = append(args, "--replication.address=https://"+hp(4),
+				"--replication.cert-filename="+t.Cert, "--replication.key-filename="+t.Key)
+			if t.CA != "" {
+				args = append(args, "--replication.ca-filename="+t.CA)
+			}
+			if t.ClientCertAuth {
+				args = append(args, "--replication.client-cert-auth=true")
+			}
+		} else {
+			args = append(args, "--replication.address=http://"+hp(4))
+		}
 	} else {
 		args = append(args,
 			"--replication.leader-address=http://"+s.LeaderRepl,
